@@ -340,7 +340,8 @@ def render_file(doc, version, form=None, pretty=False):
         form = "v2" if version >= 200 else "v1u"
     if version >= 200:
         form = "v2"
-    return (render_header(version) + render_body(doc, form, pretty)).encode("ascii")
+    # (the v1 header declares CHARSET:1252, the v2 header UTF-8; ASCII-only documents come out the same)
+    return (render_header(version) + render_body(doc, form, pretty)).encode("cp1252" if version < 200 else "utf-8")
 
 
 def doc_to_node(doc):
